@@ -128,20 +128,16 @@ Fixpoint wire_args (cs : str) (tys : list (option str)) (vs : list cval) : optio
   | _, _ => None
   end.
 
-Definition no_null_string (vs : list cval) : bool :=
-  forallb (fun v => match v with CStr None => false | _ => true end) vs.
-
 Definition cur : dialect := mkDialect true true true true false.
 
 Lemma retained_args_agree cs : forall tys vs args wargs,
-  cvals_ok cs vs = true -> no_null_string vs = true ->
+  cvals_ok cs vs = true ->
   denote_args cs tys vs = Some args -> wire_args cs tys vs = Some wargs ->
   map retained_arg args = map retained_arg (map (denote_arg cur) wargs).
 Proof.
-  induction cs as [|c cs IH]; intros tys vs args wargs Hok Hnn Hd Hw.
+  induction cs as [|c cs IH]; intros tys vs args wargs Hok Hd Hw.
   - destruct vs; [|discriminate]. cbn in Hd, Hw. injection Hd as <-. injection Hw as <-. reflexivity.
   - destruct vs as [|v vs]; [discriminate|]. cbn [cvals_ok] in Hok. apply andb_true_iff in Hok. destruct Hok as [Hv Hrest].
-    cbn [no_null_string forallb] in Hnn. apply andb_true_iff in Hnn. destruct Hnn as [Hn1 Hn2].
     cbn [denote_args] in Hd. cbn [wire_args] in Hw.
     set (ty := match tys with t :: _ => t | [] => None end) in *.
     destruct (denote_carg ty c v) as [a|] eqn:Ea; [|discriminate].
@@ -149,11 +145,12 @@ Proof.
     destruct (wire_arg ty c v) as [wa|] eqn:Ewa; [|discriminate].
     destruct (wire_args cs (tl tys) vs) as [wr|] eqn:Ewr; [|discriminate]. injection Hw as <-.
     cbn [map]. f_equal; [|eapply IH; eassumption].
-    clear -Hv Hn1 Ea Ewa.
+    clear -Hv Ea Ewa.
     destruct v as [z|k|[s|]|[[ifc id]|]|id ao|l]; cbn [cval_ok denote_carg wire_arg] in *; try discriminate.
     + assert (Hc3 : (c = 105 \/ c = 117 \/ c = 104)%N).
       { apply orb_true_iff in Hv. destruct Hv as [Hv|Hv]; [apply orb_true_iff in Hv; destruct Hv as [Hv|Hv]|]; apply N.eqb_eq in Hv; auto. }
       destruct Hc3 as [->|[->| ->]]; cbn in Ea, Ewa; injection Ea as <-; injection Ewa as <-; reflexivity.
+    + rewrite Hv in Ea. injection Ea as <-. injection Ewa as <-. reflexivity.
     + rewrite Hv in Ea. injection Ea as <-. injection Ewa as <-. reflexivity.
     + rewrite Hv in Ea. injection Ea as <-. injection Ewa as <-. reflexivity.
     + apply andb_true_iff in Hv. destruct Hv as [Hv _]. rewrite Hv in Ea. injection Ea as <-. injection Ewa as <-. reflexivity.
@@ -164,9 +161,9 @@ Qed.
 
 (* C09: in everything libwayland's print-out of the closure retains, GDB mode agrees with what log
    mode decodes from that print-out (current dialect), provided the print-out is in the domain of
-   C01 and no string argument is NULL (known finding D5) *)
+   C01 (NULL strings included since the fix of D5: both modes report a null argument) *)
 Theorem gdb_agrees_with_log k target cl time wargs queue conn :
-  wf_closure cl = true -> no_null_string (cl_args cl) = true ->
+  wf_closure cl = true ->
   wire_args (codes (cl_sig cl)) (cl_types cl) (cl_args cl) = Some wargs ->
   let w := mkWmsg (Z.to_N time) queue conn (match k with Sent => true | _ => false end) target (cl_sender cl) (cl_name cl) wargs in
   wf_wmsg w = true -> 0 <= time ->
@@ -176,7 +173,7 @@ Theorem gdb_agrees_with_log k target cl time wargs queue conn :
     (match k with Sent => True | _ => p_type gm = p_type lm end) /\
     map retained_arg (p_args gm) = map retained_arg (p_args lm).
 Proof.
-  intros Hwf Hnn Hw w Hww Ht.
+  intros Hwf Hw w Hww Ht.
   destruct (extract_exact k target cl time Hwf) as (args & He & Hd).
   pose proof (decode_render cur w Hww) as Hdr. unfold denote in Hdr.
   eexists _, _, _. split; [exact He|]. split; [exact Hdr|].
